@@ -35,12 +35,12 @@ from haiway import (  # noqa: E402
 ID = "C18"
 TECHNIQUE = "exhaustive grid enumeration (signature x call form x receiver x outcome x executor x caller context) with gated real worker threads; every order of worker release vs loop heartbeat (DFS, prefix replay)"
 RULE = (
-    "6 signatures x every admissible call form x {function, bound method} x {value, Exception, "
+    "6 signatures x every admissible call form x {function, bound method, bound method of a falsy receiver} x {value, Exception, "
     "BaseException} x "
     "{default, explicit executor} x caller context {none, scope A#1, scope + updated A#2} for "
     "asynchronous (all orders of 'release worker' vs two heartbeat steps); wrap_async (sync / "
     "async input) and traced (sync / async, inside / outside a scope) over the same call forms; "
-    "metadata (__name__, __doc__, __wrapped__) for every helper decorator; non-trivial = the call "
+    "metadata (__name__, __doc__, __wrapped__) for every helper decorator under every combination of its options (138 configurations) and stacked pairs; non-trivial = the call "
     "passes keyword / variadic arguments, raises, or is made inside a scope"
 )
 ASSUMPTIONS = [
@@ -125,11 +125,13 @@ SIGS: dict[str, tuple[str, list]] = {
 def programs(tier: str):
     for sig, (_, forms) in SIGS.items():
         for fi in range(len(forms)):
-            for kind in ("function", "method"):
+            for kind in ("function", "method", "method-falsy"):
                 for outcome in ("value", "raise", "raise_base", "awaitable"):
                     for executor in ("default", "explicit"):
-                        if outcome == "awaitable" and (executor == "explicit" or kind == "method"):
+                        if outcome == "awaitable" and (executor == "explicit" or kind != "function"):
                             continue
+                        if kind == "method-falsy" and outcome not in ("value", "raise"):
+                            continue  # a receiver whose instances are falsy (empty container)
                         if outcome == "raise_base" and executor == "explicit":
                             continue
                         for cctx in ("none", "scope", "scope+updated"):
@@ -161,6 +163,65 @@ def programs(tier: str):
         yield {"family": "meta", "decorator": "stack:" + pair}
     for deco in ("asynchronous", "asynchronous()", "wrap_async", "traced", "traced-async", "cache", "cache()", "cache-async", "retry", "retry()", "retry-async", "throttle", "throttle()", "timeout", "asynchronous-method", "cache-method"):
         yield {"family": "meta", "decorator": deco}
+    # every combination of every decorator's options ("-" = argument left out)
+    import itertools as _it
+
+    for which, space in META_GRID.items():
+        names = list(space)
+        for combo in _it.product(*(space[nm] for nm in names)):
+            yield {"family": "meta", "decorator": "grid:" + which, "opts": dict(zip(names, combo))}
+
+
+META_GRID = {
+    "cache": {"fn": ["sync", "async"], "limit": ["-", 2], "expiration": ["-", "none", 1.5]},
+    "retry": {"fn": ["sync", "async"], "limit": ["-", 2], "delay": ["-", "none", 1, 0.5, "fn"], "catching": ["-", "cls", "tuple", "set"]},
+    "throttle": {"fn": ["async"], "limit": ["-", 2], "period": ["-", 1, 0.5, "timedelta"]},
+    "timeout": {"fn": ["async"], "timeout": [1, 0.5]},
+    "asynchronous": {"fn": ["sync"], "executor": ["-", "pool"], "loop": ["-", "none"]},
+    "traced": {"fn": ["sync", "async"]},
+    "wrap_async": {"fn": ["sync", "async"]},
+}
+
+
+def _grid_decorate(which: str, opts: dict, fn):
+    """Apply decorator `which` with exactly the given options to fn."""
+    from datetime import timedelta as _td
+
+    kw: dict = {}
+    for k, v in opts.items():
+        if k == "fn" or v == "-":
+            continue
+        if v == "none":
+            kw[k] = None
+        elif v == "timedelta":
+            kw[k] = _td(seconds=1)
+        elif v == "fn":
+            kw[k] = lambda attempt, exc: 0.5
+        elif v == "cls":
+            kw[k] = ValueError
+        elif v == "tuple":
+            kw[k] = (ValueError, KeyError)
+        elif v == "set":
+            kw[k] = {ValueError, KeyError}
+        elif v == "pool":
+            from concurrent.futures import ThreadPoolExecutor
+
+            kw[k] = ThreadPoolExecutor(max_workers=1)
+        else:
+            kw[k] = v
+    if which == "timeout":
+        return timeout(kw["timeout"])(fn)
+    deco = {"cache": cache, "retry": retry, "throttle": throttle, "asynchronous": asynchronous, "traced": traced, "wrap_async": wrap_async}[which]
+    if which == "wrap_async":
+        return deco(fn)
+    if not kw:
+        return deco(fn)  # bare form; the called form with no arguments is covered above
+    try:
+        return deco(**kw)(fn)
+    finally:
+        ex = kw.get("executor")
+        if ex is not None:
+            ex.shutdown(wait=False)
 
 
 def explore_config(tier: str, program) -> dict:
@@ -393,13 +454,16 @@ def execute(program, ch: Chooser) -> Result:  # noqa: C901, PLR0912, PLR0915
         hb["worker_released_when_done"] = any(r["released"] for r in executor.pending)
 
     try:
-        is_method = program.get("kind") == "method"
+        is_method = program.get("kind") in ("method", "method-falsy")
         receiver = None
         if fam == "asynchronous":
             raw = _make(sig, is_method, False, body)
             deco = asynchronous if program["executor"] == "default" else asynchronous(executor=executor)
             if is_method:
-                owner = type("Owner", (), {"f": deco(raw)})
+                members: dict = {"f": deco(raw)}
+                if program.get("kind") == "method-falsy":
+                    members["__len__"] = lambda self: 0
+                owner = type("Owner", (), members)
                 receiver = owner()
                 target = receiver.f
             else:
@@ -612,6 +676,10 @@ def _meta(program) -> Result:  # noqa: C901, PLR0912
         elif deco == "timeout":
             original = async_fn
             wrapped = timeout(1)(async_fn)
+        elif deco.startswith("grid:"):
+            original = async_fn if program["opts"]["fn"] == "async" else sync_fn
+            wrapped = _grid_decorate(deco[5:], program["opts"], original)
+            deco = deco + "/" + ",".join(f"{k}={v}" for k, v in program["opts"].items() if v != "-")
         elif deco == "asynchronous-method":
 
             class O1:
@@ -642,6 +710,6 @@ def _meta(program) -> Result:  # noqa: C901, PLR0912
         viols.append(viol("metadata", f"name/{deco}", original.__name__, name))
     if doc != "Doc.":
         viols.append(viol("metadata", f"doc/{deco}", "Doc.", doc))
-    if wr is not original:
+    if wr is not original and wrapped is not original:  # handing back the function itself keeps everything
         viols.append(viol("metadata", f"wrapped/{deco}", "the original function", repr(wr)[:80] if wr is not None else None))
     return Result(f"meta/{deco}", True, viols, {"decorator": deco, "name": name, "doc": doc}, steps=3)
